@@ -1,8 +1,73 @@
-import Cirbo.Model.Passes
-/-! # C03 (placeholder until the theorems are in)
--- OBLIGATION: c03_placeholder
+import Cirbo.Proofs.Passes
+/-!
+# C03 — Simplification passes preserve the function, the interface and their argument
+
+-- OBLIGATION: c03_rrg_preserves
+-- OBLIGATION: c03_rrg_same_function
+-- OBLIGATION: c03_rrg_keeps_inputs
+-- OBLIGATION: c03_pipeline_of_rrg_preserves
+-- PARTIAL: proved for RemoveRedundantGates (both modes) and for every pipeline made of it. MergeUnaryOperators, MergeDuplicateGates, MergeEquivalentGates and the pipelines containing them (cleanup light/heavy) are modelled one-to-one (Model/Passes.lean) and compared with the code field by field on every run, and the search compares the truth tables, interfaces and sizes of argument and result of the real passes; their preservation theorems are not proved yet. "The argument is not modified" is decided by the correspondence harness (Lean values are immutable, so the model cannot exhibit aliasing).
 -/
 namespace Cirbo
-theorem c03_placeholder : True := trivial
-#print axioms c03_placeholder
+
+/-- `RemoveRedundantGates(allow_inputs_removal=allow)` on any circuit satisfying the C02 invariant:
+the result is again such a circuit, consists of gates of the argument only (so it is never larger),
+keeps the output list, keeps the input order, and drops inputs only when asked to — and then only
+those it does not contain. -/
+theorem c03_rrg_preserves {allow : Bool} {c c' : Circuit} (hw : WFS c) (h : rrg allow c = .ok c') :
+    WFS c' ∧ (∀ g ∈ c'.gates, g ∈ c.gates) ∧ c'.gates.length ≤ c.gates.length ∧
+    c'.outputs = c.outputs ∧
+    c'.inputs = c.inputs.filter (fun i => decide (i ∈ c'.labels)) := by
+  obtain ⟨a, b, _, d, e, _, g, _⟩ := rrg_spec hw h
+  exact ⟨a, b, g, d, e⟩
+
+theorem c03_rrg_keeps_inputs {c c' : Circuit} (hw : WFS c) (h : rrg false c = .ok c') :
+    c'.inputs = c.inputs := (rrg_spec hw h).2.2.2.2.2.1 rfl
+
+/-- identical truth table: under every input assignment, the valuation of the result gives each
+output position the value the valuation of the argument gives it -/
+theorem c03_rrg_same_function {allow : Bool} {c c' : Circuit} (hw : WFS c) (h : rrg allow c = .ok c')
+    (b : Label → Bool) (v v' : Label → Bool) (hv : IsValB c b v) (hv' : IsValB c' b v') :
+    c'.outputs.map v' = c.outputs.map v := by
+  obtain ⟨w', _, hval, ho, _⟩ := rrg_spec hw h
+  rw [ho]
+  apply List.map_congr_left
+  intro o hoc
+  have hol : o ∈ c'.labels := w'.outputsOK o (ho ▸ hoc)
+  obtain ⟨g, hg, rfl⟩ := List.mem_map.mp hol
+  exact valB_unique_cr w'.closed w'.rank hv' (hval b v hv) g hg
+
+/-- the same for every pipeline that consists of redundant-gate removals -/
+theorem c03_pipeline_of_rrg_preserves : ∀ (ts : List Tr) {c c' : Circuit}, WFS c →
+    (∀ t ∈ ts, ∃ a, t = .rrg a) → runSeq (.ok c) ts = .ok c' →
+    WFS c' ∧ (∀ g ∈ c'.gates, g ∈ c.gates) ∧ c'.outputs = c.outputs ∧
+    (∀ b v, IsValB c b v → IsValB c' b v) := by
+  intro ts
+  induction ts with
+  | nil => intro c c' hw _ h; cases h; exact ⟨hw, fun _ h => h, rfl, fun _ _ h => h⟩
+  | cons t r ih =>
+    intro c c' hw hts h
+    obtain ⟨a, rfl⟩ := hts t (by simp)
+    have h' : runSeq (trStepR (.ok c) (.rrg a)) r = .ok c' := h
+    cases h1 : trStepR (.ok c) (.rrg a) with
+    | error e => rw [h1, runSeq_error] at h'; cases h'
+    | ok c1 =>
+      rw [h1] at h'
+      obtain ⟨w1, s1, v1, o1, _⟩ := rrg_spec hw (show rrg a c = .ok c1 from h1)
+      obtain ⟨w2, s2, o2, v2⟩ := ih w1 (fun t ht => hts t (by simp [ht])) h'
+      exact ⟨w2, fun g hg => s1 g (s2 g hg), o2.trans o1, fun b v hv => v2 b v (v1 b v hv)⟩
+
+/-! Non-vacuity: dead logic and an unused input are removed, the function is kept -/
+open GateType in
+def c03Example : R Circuit := runOps Circuit.empty
+    [.addInputs ["a", "b", "u"], .addGate ⟨"x", AND, ["a", "b"]⟩, .addGate ⟨"d", OR, ["a", "u"]⟩,
+     .setOutputs ["x", "a", "x"]]
+example : ((c03Example >>= rrg true).toOption.map fun c => (c.inputs, c.outputs, c.labels)) =
+    some (["a", "b"], ["x", "a", "x"], ["b", "a", "x"]) := by decide
+
+#print axioms c03_rrg_preserves
+#print axioms c03_rrg_same_function
+#print axioms c03_rrg_keeps_inputs
+#print axioms c03_pipeline_of_rrg_preserves
+
 end Cirbo
